@@ -336,6 +336,70 @@ def rule_R6(ctx, prj):
         ctx.ok("R6", prj.cls(CB).methods["all_measurements"].site(), "no memoised attribute in Codebase/Report/ScanTotals/SourceFolder/SourceFileEntry/LanguageTotals: every query recomputes from files/totals/tree")
 
 
+def canon(v, seen=None, depth=0):
+    """structural description of a value of the interpreter (objects by class and fields, not by identity)"""
+    from ..absint import ISet, Sym
+    seen = seen if seen is not None else set()
+    if depth > 8:
+        return "..."
+    if isinstance(v, Sym):
+        if v.uid in seen:
+            return f"<{v.cls.name if v.cls else v.name} again>"
+        seen.add(v.uid)
+        return (v.cls.name if v.cls else v.name, tuple((k, canon(x, seen, depth + 1)) for k, x in sorted(v.fields.items())))
+    if isinstance(v, dict):
+        return ("dict", tuple((repr(k), canon(x, seen, depth + 1)) for k, x in v.items()))
+    if isinstance(v, (list, tuple)):
+        return (type(v).__name__, tuple(canon(x, seen, depth + 1) for x in v))
+    if isinstance(v, ISet):
+        return ("set", tuple(canon(x, seen, depth + 1) for x in v.xs))
+    return repr(v)
+
+
+def rule_R8_isolation(ctx, prj, rid="R8"):
+    """accumulator objects of one process do not share state: a new ScanTotals / LanguageTotals / Codebase built after another
+    one has been filled is in the same state as the first one was when it was new (a default argument is evaluated once)"""
+    from ..absint import PyRaise, Unknown
+    from ..report_eval import ReportLab
+    ctx.rule(rid, "accumulators of one process are independent: after an instance of ScanTotals, LanguageTotals or Codebase has been "
+                   "filled, a newly constructed one starts in the state a new one had before (no container shared through a "
+                   "default argument or a class attribute)", floor=2)
+    table = [("codelimit.common.ScanTotals:ScanTotals", [], "add"),
+             ("codelimit.common.LanguageTotals:LanguageTotals", ["Python"], "add"),
+             (CB, ["/root"], "add_file")]
+    for qual, args, filler in table:
+        try:
+            ci = prj.cls(qual)
+        except Exception:
+            continue
+        m = ci.find_method(filler)
+        if m is None:
+            continue
+        site = prj.func(m.qual).site()
+        try:
+            rl = ReportLab(prj)
+            first = rl.new(ci, *args)
+            before = canon(first)
+            ms = [rl.new(rl.Measurement, f"f{i}", rl.new(rl.Location, 1, 1), rl.new(rl.Location, 2, 1), v) for i, v in enumerate([16, 31, 61])]
+            rl.call(first, filler, rl.new(rl.Entry, "a/b.py", "sum", "Python", 108, ms))
+            if canon(first) == before:
+                raise Unknown(f"{ci.name}.{filler} leaves the object unchanged")
+            second = rl.new(ci, *args)
+            after = canon(second)
+        except (Unknown, PyRaise) as e:
+            ctx.info(f"{rid}: {ci.name} not evaluable ({type(e).__name__}: {e}); not decided for this class")
+            continue
+        if after != before:
+            diff = next((f"{a[0]}: {b[1]!r} instead of {a[1]!r}" for a, b in zip(before[1], after[1]) if a != b), "fields differ") \
+                if isinstance(before, tuple) and isinstance(after, tuple) else "state differs"
+            ctx.viol(rid, f"{ci.name}/shared-state", site,
+                     f"a {ci.name}({', '.join(map(repr, args))}) constructed after another instance was filled by {filler}() does not start "
+                     f"empty ({str(diff)[:260]}): state is shared between instances (mutable default argument or class-level "
+                     f"container), so the totals of a second scan in the same process include the first one's")
+        else:
+            ctx.ok(rid, site, f"{ci.name}: a new instance is unaffected by {filler}() on an earlier one")
+
+
 def run(ctx, prj: Project):
     ctx.explanation = (
         "Agreement of the three redundant views (per-language totals, folder-tree profiles, per-file data) decided as "
@@ -353,3 +417,4 @@ def run(ctx, prj: Project):
         rule_R4(ctx, prj)
     rule_R5(ctx, prj, form=not evaluated)
     rule_R6(ctx, prj)
+    rule_R8_isolation(ctx, prj)
